@@ -89,7 +89,6 @@ package subgroup_info
 //@     invariant allSubGroups != nil && children != nil && fresh(allSubGroups) && fresh(children)
 //@     invariant forall k in allSubGroups :: allSubGroups[k] != nil
 //@     invariant rangeindex >= -1
-//@     invariant forall p *v2alpha2.SubGroup :: !fresh(p) ==> p.Name == old(p.Name) && p.MinMember == old(p.MinMember) && p.Parent == old(p.Parent) && p.TopologyConstraint == old(p.TopologyConstraint)
 //@     invariant forall q *string :: !fresh(q) ==> *q == old(*q)
 //@     decreases len(podGroup.Spec.SubGroups) - rangeindex
 //@   ensures result2 == nil ==> result0 != nil && result1 != nil && fresh(result0) && fresh(result1)
@@ -153,4 +152,31 @@ package subgroup_info
 //@   requires podSet != nil && setsOK(subGroupSets)
 //@   modifies podSet.parent, subGroupSets[formatParentName(parentName)].podSets
 //@   ensures result == nil <==> formatParentName(parentName) in subGroupSets
+//@ end
+
+// every name in the two maps (except the root "") is a declared sub-group: what createSubGroupInfos establishes
+//@ define namesKnown(all map[string]*v2alpha2.SubGroup, sets map[string]*SubGroupSet, pods map[string]*PodSet) bool = (forall k in sets :: k != "" ==> k in all && all[k] != nil) && (forall k in pods :: k in all && all[k] != nil)
+
+// Only the tree links (parent, groups, podSets) of sub-group nodes are written: `family(x.f)` = field f of any object.
+//@ func addToParent
+//@   props C10
+//@   requires setsOK(subGroupSets) && podSetsOK(podSets) && namesKnown(allSubGroups, subGroupSets, podSets)
+//@   modifies family(subGroupSets[""].parent), family(subGroupSets[""].groups), family(subGroupSets[""].podSets)
+//@   loop 1
+//@     invariant true
+//@   loop 2
+//@     invariant true
+//@ end
+
+// placeholder of type *SubGroupSet used only to name field families in `modifies family(...)`
+//@ declare anySet() *SubGroupSet
+
+// C10 top: for EVERY content of podGroup.Spec.SubGroups FromPodGroup returns an error or a root node, never panics,
+// and touches nothing but tree links of sub-group nodes.
+//@ func FromPodGroup
+//@   props C10
+//@   requires podGroup != nil
+//@   modifies family(anySet().parent), family(anySet().groups), family(anySet().podSets)
+//@   ensures [errOrTree] (result1 != nil && result0 == nil) || (result1 == nil && result0 != nil && fresh(result0))
+//@   ensures [rootIsRoot] result1 == nil ==> result0.name == ""
 //@ end
